@@ -20,6 +20,9 @@ ATOMS = {
     "C(k, Treatment(2))": ("cat", "k", "treatment", "2"),
     "C(f, Sum)": ("cat", "f", "sum", None), "S(h)": ("cat", "h", "sum", None),
     "C(h, Sum('v'))": ("cat", "h", "sum", "v"), "S(f, 'a')": ("cat", "f", "sum", "a"),
+    "I(f)": ("cat", "f", "treatment", None), "I(g)": ("cat", "g", "treatment", None),
+    "I(o)": ("cat", "o", "treatment", None), "I(c)": ("cat", "c", "treatment", None),
+    "C(C(f))": ("cat", "f", "treatment", None), "C(C(h), Sum)": ("cat", "h", "sum", None),
 }
 NUM_ATOMS = [a for a, v in ATOMS.items() if v[0] in ("num", "expr") and a != "I(w * 2)"]
 TREAT_ATOMS = [a for a, v in ATOMS.items() if v[0] == "cat" and v[2] == "treatment" and a != "k"]
